@@ -5,7 +5,7 @@ import itertools
 from .. import attach, gen, core
 from ..attach import Monitor
 from ..core import COL
-from ..shadow import bits, mask_of
+from ..shadow import bits, mask_of, popcount
 from . import common
 from .common import call, RAISED
 
@@ -21,12 +21,16 @@ META = {
              'the full intent; minimal() = first yielded set for every concept that is not the '
              'infimum, infimum.minimal() = its full intent (documented override). For each '
              'yielded set the monitor also calls lattice(set) and requires the very concept '
-             'back. distinct_nontrivial = distinct (table, concept) with >= 2 incomparable '
+             'back. BIGINTENT (17-18 wide, brute force), FULLINTENT (21-22 wide, 2-4 million generating sets '
+             'enumerated to the end and judged item by item - generating, in context order, strictly '
+             'shortlex - with the total from inclusion-exclusion over the other rows), WIDEINTENT (26-30 '
+             'wide, prefixes). distinct_nontrivial = distinct (table, concept) with >= 2 incomparable '
              'generating sets.'),
     'evaluation_counters': ['judged_attributes', 'judged_minimal'],
     'required_counters': ['judged_attributes', 'judged_minimal', 'judged_minimal_infimum',
                           'judged_empty_extent', 'judged_nonempty_bottom', 'judged_abandoned',
-                          'regenerated_via_lattice_call', 'interleaved_enumerations', 'bigintent_cases', 'judged_attributes_prefix_of_wide_intent'],
+                          'regenerated_via_lattice_call', 'interleaved_enumerations', 'bigintent_cases', 'judged_attributes_prefix_of_wide_intent',
+                          'judged_attributes_streamed_wide_intent'],
     'shards': {'quick': 16, 'thorough': 16},
     'exhaustive': {'quick': 'all tables <= 3x3 x all concepts', 'thorough': 'all tables <= 3x3, 3x4, 4x3, 4x4 x all concepts'},
     'assumptions': ['intents larger than the bound are skipped (counted)'],
@@ -68,6 +72,75 @@ def generators_prefix(sh, e, i, count):
     return out
 
 
+def count_generators(sh, e, i):
+    """Number of subsets of intent ``i`` whose extension is exactly ``e`` - by inclusion-exclusion over
+    the objects outside ``e`` (a subset fails iff it fits into the row of one of them)."""
+    if e == 0:
+        return 1
+    rows = {sh.rows[g] & i for g in range(sh.n) if not e >> g & 1}
+    rows = [r for r in rows if not any(r != q and r & q == r for q in rows)]      # maximal ones
+    if len(rows) > 16:
+        raise core.CaseTooLarge(len(rows))
+    inside = 0
+    for t in range(1, 1 << len(rows)):
+        common_ = i
+        for x in bits(t):
+            common_ &= rows[x]
+        inside += (1 if popcount(t) % 2 else -1) << popcount(common_)
+    return (1 << popcount(i)) - inside
+
+
+def streaming(gen_obj, sh, e, i, c):
+    """Iterator proxy for intents with millions of generating sets: nothing is stored; every item
+    is judged as it passes (a generating subset of the intent, strictly after its predecessor in
+    shortlex order), the number of items at exhaustion against ``count_generators``."""
+    def proxy():
+        n = 0
+        prev = None
+        bad = None
+        complete = False
+        pidx = sh.pidx
+        extension = sh.extension
+        try:
+            for t in gen_obj:
+                n += 1
+                if bad is None:
+                    try:
+                        pos = [pidx[x] for x in t]
+                    except (KeyError, TypeError):
+                        bad = ('attributes:wide-intent-item-has-unknown-names', None, repr(t)[:200])
+                    else:
+                        m = 0
+                        for x in pos:
+                            m |= 1 << x
+                        key = (len(pos), pos)
+                        if m & ~i or extension(m) != e:
+                            bad = ('attributes:wide-intent-item-does-not-generate-the-concept', None, list(t)[:30])
+                        elif pos != sorted(pos) or len(set(pos)) != len(pos):
+                            bad = ('attributes:wide-intent-item-not-in-context-order', None, list(t)[:30])
+                        elif prev is not None and not prev < key:
+                            bad = ('attributes:wide-intent-items-not-strictly-shortlex', None, list(t)[:30])
+                        prev = key
+                yield t
+            complete = True
+        finally:
+            COL.depth += 1
+            try:
+                COL.count('judged_attributes')
+                COL.count('judged_attributes_streamed_wide_intent')
+                COL.count('streamed_items', n)
+                if bad is not None:
+                    COL.violation('attributes', bad[0], bad[1], bad[2], {'concept': repr(c)[:200], 'items_seen': n})
+                elif complete:
+                    want = count_generators(sh, e, i)
+                    if n != want:
+                        COL.violation('attributes', 'attributes:wide-intent-number-of-generating-sets-differs', want, n,
+                                      {'concept': repr(c)[:200], 'last_item_size': prev[0] if prev else None})
+            finally:
+                COL.depth -= 1
+    return proxy()
+
+
 def _view(c, cap):
     lat = getattr(c, 'lattice', None)
     if lat is None:
@@ -89,6 +162,8 @@ class AttributesMonitor(Monitor):
         e, i = view.masks[k]
         sh = view.sh
         wide = len(bits(i)) > (STATE['bound'] or self.bound)
+        if wide and STATE.get('stream'):
+            return attach.Replace(streaming(result, sh, e, i, c))
         if wide and not STATE.get('prefix_only'):
             COL.count('skipped_intent_too_large')
             return
@@ -236,6 +311,46 @@ def wideintent_cases(tier):
         yield dict(gen.case(f'WIDEINTENT{m}', rows, m, 'plain'), wideintent=True)
 
 
+def fullintent_cases(tier):
+    """An intent of 21-22 properties enumerated to the end (millions of generating sets), judged item by
+    item without storing them; no other object comes closer to the intent than two properties."""
+    import random as _r
+    for k, m in enumerate([21] if tier == 'quick' else [21, 22, 21]):
+        rng = _r.Random(f'fullintent{m}/{k}')
+        full = (1 << m) - 1
+        rows = [full]
+        for _ in range(2 + k):
+            r = rng.getrandbits(m) | rng.getrandbits(m)
+            for x in rng.sample(range(m), 2 + k % 2):
+                r &= ~(1 << x)
+            rows.append(r)
+        if k == 2:
+            rows.append(full)           # the wide intent belongs to a two-object extent
+        yield dict(gen.case(f'FULLINTENT{m}', rows, m, 'rev'), fullintent=True)
+
+
+def run_fullintent(concepts, case, spec):
+    ctx = common.build_or_skip(concepts, case)
+    if ctx is None:
+        return
+    lat = common.get_lattice(ctx)
+    if lat is RAISED:
+        return
+    members = list(lat)
+    COL.count('fullintent_cases')
+    big = max(members, key=lambda c: (len(c.intent) if c.extent else -1))
+    STATE['stream'] = True
+    try:
+        g = call(big.attributes)
+        if g is RAISED:
+            return
+        for _ in g:         # to the very end, nothing kept
+            pass
+        call(big.minimal)
+    finally:
+        STATE['stream'] = False
+
+
 def run_wideintent(concepts, case, spec):
     ctx = common.build_or_skip(concepts, case)
     if ctx is None:
@@ -298,10 +413,11 @@ def run_bigintent(concepts, case, spec):
         STATE['bound'] = None
 
 
-STATE = {'bound': None, 'prefix_only': False}
+STATE = {'bound': None, 'prefix_only': False, 'stream': False}
 
 
 def cases(tier, seed, spec):
+    yield from fullintent_cases(tier)
     yield from wideintent_cases(tier)
     yield from bigintent_cases(tier)
     bound = MAX_INTENT[tier]
@@ -311,6 +427,8 @@ def cases(tier, seed, spec):
 
 
 def run_case(concepts, case, spec):
+    if case.get('fullintent'):
+        return run_fullintent(concepts, case, spec)
     if case.get('wideintent'):
         return run_wideintent(concepts, case, spec)
     if case.get('bigintent'):
